@@ -493,6 +493,26 @@ def _real_crash_runs():
                     viol.append(dict(id="bounded:tree_rebuild_crash", crashed_before=ev, requested=k, trees=got, expected=want[k]))
         samples.append(dict(workload="tree rebuild", crash_points=[e[0] for e in events]))
         shutil.rmtree(out, ignore_errors=True)
+        # (2b) the same for a whole catalog: an interrupted rebuild over all patches must be completed by the next (unforced) use -
+        # every patch is looked at, not only the first
+        root = f"{tmp}/w2b"
+        os.makedirs(root)
+        cat = yaw.Catalog.from_dataframe(root + "/cat", df, **kw)
+        cat.build_trees(b_old.edges, closed=str(b_old.closed))
+        events, out, err = crashsim.record(root, lambda: cat.build_trees(b_new.edges, closed=str(b_new.closed)))
+        want_new = {pid: [t.num_records for t in BinnedTrees.build(cat[pid], b_new, force=True).trees] for pid in cat.keys()}
+        for ev, d in events:
+            evals += 1
+            try:
+                c2 = yaw.Catalog(d + "/cat")
+                c2.build_trees(b_new.edges, closed=str(b_new.closed))
+                got = {pid: [t.num_records for t in BinnedTrees(c2[pid]).trees] for pid in c2.keys()}
+            except Exception:  # noqa: BLE001
+                continue
+            if got != want_new and len(viol) < 6:
+                viol.append(dict(id="bounded:catalog_tree_rebuild_crash", crashed_before=ev, trees=got, expected=want_new))
+        samples.append(dict(workload="tree rebuild of a catalog", crash_points=len(events)))
+        shutil.rmtree(out, ignore_errors=True)
         # (3) result files over an older result
         root = f"{tmp}/w3"
         os.makedirs(root)
@@ -522,7 +542,7 @@ def bounded(opts):
     import time
     t0 = time.time()
     viol, evals, samples = _real_crash_runs()
-    return dict(kind="bounded", bound="4 workloads (catalog creation fresh / over an older catalog with trees, tree rebuild with another binning, "
+    return dict(kind="bounded", bound="5 workloads (catalog creation fresh / over an older catalog with trees, tree rebuild of one patch and of a whole catalog with another binning, "
                 "result files over an older result); one survivor per file-system operation seen by the audit hook plus the "
                 "created-but-empty state of every file opened for writing; real readers on every survivor", evaluations=evals,
                 distinct_nontrivial=evals, violations=viol, samples=samples, wall_s=round(time.time() - t0, 2),
@@ -533,3 +553,14 @@ def replay_witness(unit_name, case, ob):
     viol, evals, samples = _real_crash_runs()
     return {"reproduced": bool(viol), "violations": viol[:4], "survivors_checked": evals,
             "note": "real writers killed (by state copy) before every file-system operation; real readers on the survivors"}
+
+
+# an interrupted rebuild is repaired only if the next use looks at *every* patch: Catalog.build_trees dispatches BinnedTrees.build for
+# all patches on every call (C05 unit), and BinnedTrees.build decides per patch from its own marker (units above)
+def _register_shared_round9():
+    from . import C05 as _C05
+    unit(P, "Catalog.build_trees", fuc=["yaw.catalog.catalog:Catalog.build_trees"],
+         cases=[dict(binned=b, repeated=r) for b in (False, True) for r in (False, True)], trusted=["iter_unordered contract"])(_C05.u_cat_build_trees)
+
+
+# _register_shared_round9() is called by the driver after this module is fully imported (no import cycles)
